@@ -6,7 +6,6 @@ CONSTANTS
   MaxKeys = 3
   EmptyTrieVerifies = FALSE
   CheckValueDepth = FALSE
-  IgnoreCachedHash = FALSE
 INIT Init
 NEXT Next
 VIEW view
